@@ -79,7 +79,18 @@ func c26Check(label string, f *bloom.BloomFilter, entries map[string]bool, rate 
 	}
 }
 
-func c26Case(n int, rate float64, producer string) CaseResult {
+// c26SharedRows: a shared vocabulary — every token occurs under several fields, so the three
+// entry kinds have very different distinct counts (4 fields, n tokens, 4n pairs).
+func c26SharedRows(n int) []map[string]any {
+	rows := make([]map[string]any, 0, n)
+	for i := 0; i < n; i++ {
+		t := fmt.Sprintf("w%d", i)
+		rows = append(rows, map[string]any{"a": t, "b": t, "c": map[string]any{"d": t}, "e": []any{t, fmt.Sprintf("w%d", (i+1)%n)}})
+	}
+	return rows
+}
+
+func c26Case(n int, rate float64, producer string, shared ...bool) CaseResult {
 	var res CaseResult
 	cfg := quietConfig()
 	cfg.RowDataCompression = bs.CompressionNone
@@ -92,6 +103,10 @@ func c26Case(n int, rate float64, producer string) CaseResult {
 	defer w.Close()
 	rows := c26Rows(n)
 	label := fmt.Sprintf("n=%d rate=%g %s", n, rate, producer)
+	if len(shared) > 0 && shared[0] {
+		rows = c26SharedRows(n)
+		label += " shared-vocabulary"
+	}
 	switch producer {
 	case "flush":
 		err = w.Put(rows)
@@ -192,6 +207,18 @@ func init() {
 					cs = append(cs, Case{ID: fmt.Sprintf("n%d/p%g/%s", x.n, x.rate, x.p), Run: func() CaseResult { return c26Case(x.n, x.rate, x.p) }})
 				}
 			}
+			// a shared vocabulary: distinct fields << distinct tokens << distinct field:token pairs
+			for _, n := range []int{10, 300, 4000} {
+				for _, rate := range []float64{0.1, 0.01, 1e-4} {
+					for _, p := range []string{"flush", "merge-rebuilt"} {
+						if tier == "quick" && p != "flush" && rate != 0.01 {
+							continue
+						}
+						n, rate, p := n, rate, p
+						cs = append(cs, Case{ID: fmt.Sprintf("shared/n%d/p%g/%s", n, rate, p), Run: func() CaseResult { return c26Case(n, rate, p, true) }})
+					}
+				}
+			}
 			for _, n := range ns {
 				for _, rate := range []float64{0.5, 0.1, 0.01, 1e-3, 1e-4} {
 					for _, p := range []string{"flush", "merge-rebuilt", "merge-copied"} {
@@ -205,6 +232,6 @@ func init() {
 			}
 			return cs
 		},
-		Rule: "grid: distinct entries n x rate x producer (flush, merge-rebuilt block, verbatim-copied block) and file level; per filter: (m,k) must equal the textbook optimum for the reference's distinct count, and the measured rate over a fixed universe of 200000 absent entries must stay within 3 x rate + 5 sigma (the repository's own documented tolerance); quick adds three volume cases (1e5 entries at 1e-4 and 1e-3, 1.5e5 at 0.01), thorough the full grid up to 3e5; deterministic given the tree",
+		Rule: "row shapes: one field and token per row (all three entry kinds have n distinct entries) and a shared vocabulary (4 fields, n tokens, 4n field:token pairs); grid: distinct entries n x rate x producer (flush, merge-rebuilt block, verbatim-copied block) and file level; per filter: (m,k) must equal the textbook optimum for the reference's distinct count, and the measured rate over a fixed universe of 200000 absent entries must stay within 3 x rate + 5 sigma (the repository's own documented tolerance); quick adds three volume cases (1e5 entries at 1e-4 and 1e-3, 1.5e5 at 0.01), thorough the full grid up to 3e5; deterministic given the tree",
 	}
 }
